@@ -325,12 +325,13 @@ impl Plugin for FileTransferPlugin {
                                 recvd_packages: 0,
                                 recvd_payload: 0,
                                 file_data: Vec::with_capacity(if keep_data {
-                                    // only a hint; never trust the announced sizes for a huge allocation
+                                    // only a hint; never trust the announced sizes for a big allocation
+                                    // (each announced transfer would reserve it, the data itself grows the vec)
                                     std::cmp::max(
                                         1,
                                         std::cmp::min(
                                             nr_packages.saturating_mul(buffer_size),
-                                            16 * 1024 * 1024,
+                                            64 * 1024,
                                         ) as usize,
                                     )
                                 } else {
